@@ -756,6 +756,9 @@ def get_attr(self, st, base, attr, node, default=KeyError):
             return [(st, "val", base.name())]
         return [(st, "val", Top("%s.%s" % (base.name(), attr)))]
     if isinstance(base, ModuleVal):
+        gk = "@g:%s.%s" % (base.mod.name if isinstance(base.mod, Module) else base.mod, attr)
+        if gk in st.ghost:
+            return [(st, "val", st.ghost[gk])]
         if isinstance(base.mod, Module):
             ov = getattr(self, "module_attrs", {}).get((base.mod.name, attr))
             if ov is not None:
